@@ -170,6 +170,16 @@ def apply_annotations(fn, ann: Dict[str, Any], shared: Dict[str, Any], m: Dict[s
     params_schema, result_schema, prefix, for ('openapi'|'openrpc'|'both')"""
     target = ann.get('for', 'both')
     names = [p[0] for p in m['params']]
+    own_keys = [k_ for k_ in ann if k_ not in ('shared_deco', 'for')]
+    if ann.get('shared_deco'):
+        # ONE decorator object obtained from annotate(...) applied to several methods; a method's own annotate(...) - if it has
+        # one - is stacked above it
+        if target in ('openapi', 'both'):
+            shared.setdefault('deco_openapi', openapi.annotate(summary='shared summary', description='shared description', tags=['shared']))(fn)
+        if target in ('openrpc', 'both'):
+            shared.setdefault('deco_openrpc', openrpc.annotate(summary='shared summary', description='shared description', tags=['shared']))(fn)
+        if not own_keys:
+            return
     if target in ('openapi', 'both'):
         kw: Dict[str, Any] = {}
         if 'errors' in ann:
